@@ -21,6 +21,12 @@ def gen_cases(seed, tier):
         modes = {s: rng.choice(["binomial", "binomial", "perfect", "duplicate"]) for s in SPECIES}
         cases.append({"family": "partition", "splitter": kind, "modes": modes, "vmode": rng.choice(["binomial", "duplicate", "perfect"]), "noise": rng.choice([0.0, 0.1, 0.3, 0.5]),
                       "x": [float(rng.randint(0, 30)) for _ in SPECIES], "V": rng.choice([0.5, 1.0, 2.0, 3.7]), "seed": rng.randint(1, 2**31)})
+        # fractional amounts (tracers, rule-written values) in binomial / duplicated species: conserved resp. copied all the same (S2_C19)
+        if rng.random() < 0.3:
+            c = cases[-1]
+            for i, s_ in enumerate(SPECIES):
+                if (kind == "perfectbinomial" or modes[s_] != "perfect") and rng.random() < 0.6: c["x"][i] = rng.choice([0.4, 0.25, 2.4, 7.25, 12.125])   # fractional part < 1/2: the sampler rounds the amount to the NEAREST count (see DESIGN, observations)
+            c["fractional"] = True
     for _ in range(40 if tier == "quick" else 500):
         cases.append({"family": "lineage", "seed": rng.randint(1, 2**31), "reactions": rng.choice(["none", "birthdeath", "decay_only"]), "growth": rng.choice(["rule_linear", "rule_mult", "event_linear"]),
                       "division": rng.choice(["rule_volume", "rule_time", "rule_deltav", "event", "none"]), "death": rng.choice(["none", "none", "rule", "event"]),
@@ -127,7 +133,7 @@ def oracle(case, r):
                 if d[j] != m or e[j] != m: return "%s: duplicated species %s: daughters %r %r, mother %r" % (tag, s, d[j], e[j], m)
             else:
                 if d[j] + e[j] != m: return "%s: %s species %s not conserved: %r + %r != %r" % (tag, mode, s, d[j], e[j], m)
-                if d[j] < 0 or e[j] < 0 or d[j] != int(d[j]): return "%s: %s species %s split into %r / %r" % (tag, mode, s, d[j], e[j])
+                if d[j] < 0 or e[j] < 0 or (d[j] != int(d[j]) and m == int(m)): return "%s: %s species %s split into %r / %r" % (tag, mode, s, d[j], e[j])
                 if mode == "perfect":
                     p = vd / case["V"] if not (case["splitter"] == "lineage" and case["vmode"] == "duplicate") else 1.0
                     if not (math.floor(p * m - 1e-8) <= d[j] <= math.floor(p * m + 1e-8) + 1): return "%s: perfect species %s: daughter has %r of %r at fraction %r" % (tag, s, d[j], m, p)
